@@ -174,6 +174,9 @@ func c08Gen(r *Rng, maxEvents int) c08History {
 		switch k := r.Intn(14); {
 		case k == 0:
 			if !exists[i] {
+				if r.Chance(1, 4) {
+					return c08Event{Op: "blip", File: rel}, true // reported created and deleted: it never exists afterwards
+				}
 				exists[i] = true
 				onDisk[i] = r.Pick(c08VariantNames)
 				return c08Event{Op: "create", File: rel, Variant: onDisk[i]}, true
@@ -183,6 +186,9 @@ func c08Gen(r *Rng, maxEvents int) c08History {
 			if exists[i] && (!open[i] || dirty[i]) {
 				if !r.Chance(1, 4) { // one in four is a touch: announced as changed, bytes identical
 					onDisk[i] = c08Next(r, onDisk[i])
+				}
+				if !open[i] && r.Chance(1, 5) {
+					return c08Event{Op: "replace", File: rel, Variant: onDisk[i]}, true
 				}
 				return c08Event{Op: "change", File: rel, Variant: onDisk[i]}, true
 			}
@@ -403,7 +409,7 @@ func c08Run(c *Ctx, h c08History, tag string) {
 	}
 	applyFS := func(e c08Event) []interface{} {
 		_, onDisk := ws.Files[e.File]
-		if (e.Op == "create") == onDisk {
+		if (e.Op == "create" || e.Op == "blip") == onDisk {
 			panic(fmt.Sprintf("harness: non-conformant file event %s on %s (exists=%v) in %+v", e.Op, e.File, onDisk, h))
 		}
 		if dirty[e.File] {
@@ -419,6 +425,13 @@ func c08Run(c *Ctx, h c08History, tag string) {
 		case "delete":
 			ws.Delete(e.File)
 			return []interface{}{map[string]interface{}{"uri": ws.URI(e.File), "type": 3}}
+		case "replace":
+			// an atomic replace (write to a temporary name, rename over): one notification reports the path deleted, then created
+			ws.Write(e.File, c08Variant(e.Variant, idx(e.File), h.N, h.Layout))
+			return []interface{}{map[string]interface{}{"uri": ws.URI(e.File), "type": 3}, map[string]interface{}{"uri": ws.URI(e.File), "type": 1}}
+		case "blip":
+			// a short-lived file: created and deleted again before the notification goes out
+			return []interface{}{map[string]interface{}{"uri": ws.URI(e.File), "type": 1}, map[string]interface{}{"uri": ws.URI(e.File), "type": 3}}
 		}
 		return nil
 	}
@@ -426,7 +439,7 @@ func c08Run(c *Ctx, h c08History, tag string) {
 		c.Count("events", 1)
 		c.Count("event_"+e.Op, 1)
 		switch e.Op {
-		case "create", "change", "delete":
+		case "create", "change", "delete", "replace", "blip":
 			srv.Notify("workspace/didChangeWatchedFiles", map[string]interface{}{"changes": applyFS(e)})
 		case "batch":
 			var chs []interface{}
